@@ -184,7 +184,7 @@ def check_frontend(fe, sf, rendered, lines, nlines, ctx, case, complete=True):
         return multi
 
     # ---- completeness against the line map ----
-    if not complete:
+    if not complete or rendered is None:
         return multi
     by = {}
     for n in nodes:
@@ -301,9 +301,79 @@ def cases(draw, prof=None):
 
 
 def run_shard(ctx):
-    ctx.given(cases(PROFILE), check_case, ctx.scale(2000, 30000))
+    files = corpus_files()
+    for rel in files[ctx.shard::ctx.nshards]:
+        check_corpus({'corpus': rel}, ctx)
+    ctx.extra['repository_files'] = len(files)
+    ctx.given(cases(PROFILE), check_case, ctx.scale(1600, 30000))
+    from ..fprog import gen as fgen
+    prof = fgen.profile(assoc=True, pragmas=True, stmtfunc=False)
+    ctx.given(fgen.cases(prof).map(lambda c: {'fprog': c}), check_fprog, ctx.scale(160, 3000), label="fprog")
 
 
 def replay(case, ctx):
-    check_case(case, ctx)
+    _dispatch(case, ctx)
     return [(s, e['detail']) for s, e in ctx.failures.items()]
+
+
+# ---------------------------------------------------------------------------------------------
+# second population: FProg kernels (richer executable statements: WHERE, SELECT, labelled DO, intrinsics ...)
+# third population: the Fortran files shipped in the repository
+# (both: per-node checks only; there is no line map for them)
+# ---------------------------------------------------------------------------------------------
+def check_text(text, ctx, case, classes, frontends=('fp', 'regex')):
+    lines = text.split('\n')
+    nlines = len(lines)
+    multi = 0
+    parsed = []
+    for fe in frontends:
+        try:
+            sf = parse(text, fe)
+        except (Exception, SystemExit) as e:  # noqa
+            ctx.reject(e if isinstance(e, Exception) else f'SystemExit@fparser({fe})', {'text': text[:600]})
+            continue
+        parsed.append(fe)
+        multi += check_frontend(fe, sf, None, lines, nlines, ctx, case, complete=False)
+    ctx.case(case, multi > 0 and ('&' in text or ';' in text), classes + [f'parsed:{fe}' for fe in parsed])
+
+
+def check_fprog(case, ctx):
+    from ..fprog import harness
+    for r in harness.render_case(case['fprog']):
+        text = r['text']
+        if not case.get('leadblank'):
+            text = text.lstrip('\n')
+        check_text(text, ctx, case, ['population:fprog'])
+
+
+def corpus_files():
+    import os
+    from ..core import REPO
+    out = []
+    for root, _, files in os.walk(os.path.join(REPO, 'loki')):
+        for f in files:
+            if f.lower().endswith(('.f90', '.f')) and not f.lower().endswith('.f'):
+                out.append(os.path.relpath(os.path.join(root, f), REPO))
+    return sorted(out)
+
+
+def check_corpus(case, ctx):
+    import os
+    from ..core import REPO
+    with open(os.path.join(REPO, case['corpus']), errors='replace') as f:
+        text = f.read()
+    if not text.split('\n')[0].strip() and not case.get('leadblank'):
+        ctx.exclude('repository file starts with a blank line (listed finding of the REGEX frontend)')
+        frontends = ('fp',)
+    else:
+        frontends = ('fp', 'regex')
+    check_text(text, ctx, case, ['population:repository-file'], frontends)
+
+
+def _dispatch(case, ctx):
+    if 'corpus' in case:
+        check_corpus(case, ctx)
+    elif 'fprog' in case:
+        check_fprog(case, ctx)
+    else:
+        check_case(case, ctx)
